@@ -253,6 +253,62 @@ FAULTS = ["kraus-not-tp", "kraus-wrong-size", "povm-wrong-size", "custom-op-wron
           "annihilate-vacuum", "shrink-occupied", "destroyed", "missing-parameter", "duplicate-operands"]
 
 
+def dead_request(gen, v, rng, t):
+    """a request addressing the destroyed subsystem `t` through one of the entry points that can name it: the
+    subsystem itself, its envelope, a handle of its composite (there optionally together with a live subsystem)"""
+    w = v["w"]
+    sn = v["sn"]
+    k = w.kind(t)
+    pick = lambda seq: seq[int(rng.integers(0, len(seq)))]  # noqa: E731
+    vias = [{"via": "state"}]
+    e = w.env_of(t)
+    if e is not None:
+        vias.append({"via": "env", "env": e})
+    g = v["member_of"].get(t)
+    if g is not None:
+        for h in v["handles"].get(g, [])[:2]:
+            vias.append({"via": "ce", "ce": h})
+    via = pick(vias) if rng.random() < 0.7 else vias[0]
+    targets = [t]
+    x = rng.random()
+    if x < 0.35:
+        op = gen.pol_op() if k == "P" else {"fam": "fock", "type": pick(["Creation", "PhaseShift", "Identity"]), "phi": 0.3}
+        if k == "F" and op["type"] != "PhaseShift":
+            op.pop("phi", None)
+        if op.get("nonunitary"):
+            op = {"fam": "pol", "type": "X"}
+        st = {"k": "apply", "op": op, "targets": targets}
+    elif x < 0.7:
+        if via["via"] == "ce" and rng.random() < 0.5:
+            # the same request also names a live member of the composite: nothing may be measured
+            mates = [n for n in v["live"] if v["member_of"].get(n) == g and n != t]
+            if mates:
+                targets = [t, pick(mates)]
+                if rng.random() < 0.5:
+                    targets.reverse()
+        if via["via"] == "env" and rng.random() < 0.3 and all(sn.subs[m]["measured"] for m in (e + ".f", e + ".p")):
+            targets = []  # the whole envelope, both parts of which are gone
+        st = {"k": "measure", "targets": targets}
+        if rng.random() < 0.3:
+            st["destr"] = False
+        if rng.random() < 0.3:
+            st["sep"] = True
+    elif x < 0.85:
+        d = 2
+        if k != "P":
+            dd = sn.subs[t]["dims"]
+            d = dd if dd and dd > 0 else 2
+        st = {"k": "kraus", "ops": [c2j(np.eye(d))], "targets": targets}
+    else:
+        d = 2
+        if k != "P":
+            dd = sn.subs[t]["dims"]
+            d = dd if dd and dd > 0 else 2
+        st = {"k": "povm", "ops": [c2j(np.eye(d))], "targets": targets, "destr": bool(rng.random() < 0.5)}
+    st.update(via)
+    return st
+
+
 def make_fault(gen, v, rng, kind=None):
     """an invalid request against the current world (or None if this kind is not available now)"""
     w = v["w"]
@@ -412,18 +468,9 @@ def make_fault(gen, v, rng, kind=None):
         dead = [n for n in sn.order if sn.subs[n]["measured"]]
         if not dead:
             return None
-        t = pick(dead)
-        k = w.kind(t)
-        x = rng.random()
-        if x < 0.4:
-            op = gen.pol_op() if k == "P" else {"fam": "fock", "type": "Creation"}
-            if op.get("nonunitary"):
-                op = {"fam": "pol", "type": "X"}
-            return {"k": "apply", "op": op, "targets": [t], "via": "state", "fault": kind}
-        if x < 0.7:
-            return {"k": "measure", "targets": [t], "via": "state", "fault": kind}
-        d = 2 if k == "P" else 2
-        return {"k": "kraus", "ops": [c2j(np.eye(d))], "targets": [t], "via": "state", "fault": kind}
+        st = dead_request(gen, v, rng, pick(dead))
+        st["fault"] = kind
+        return st
     if kind == "missing-parameter":
         t = pick(lv)
         k = w.kind(t)
